@@ -479,7 +479,10 @@ def exhaustive_pairs(tier, shard, nshards):
 
 @st.composite
 def big_case(draw):
-    return {"n": draw(st.integers(150, 400)), "seed": draw(st.integers(0, 2 ** 31 - 1)),
+    # (one case in six has just over a thousand states: beyond any internal row-block of a dense computation)
+    return {"n": draw(st.one_of(st.integers(150, 400), st.integers(150, 400), st.integers(150, 400), st.integers(150, 400),
+                                st.integers(150, 400), st.sampled_from([1025, 1030, 1100]))),
+            "seed": draw(st.integers(0, 2 ** 31 - 1)),
             # also source / sink SETS of dozens of states (a folded / unfolded ensemble), beyond any internal block of
             # right-hand sides
             "nsrc": draw(st.sampled_from([1, 2, 3, 3, 40])), "nsnk": draw(st.sampled_from([1, 2, 3, 3, 64, 65, 100])),
@@ -543,7 +546,7 @@ def run_big(case):
     P2 = np.asarray(tpt.reactive_populations(X, src, snk, **kw)).ravel()
     require(np.array_equal(P, P2), "reactive_populations called twice on the same arguments gave different values")
     tiny = int(((Nref > 0) & (Nref < 1e-8)).sum())
-    return Info(tiny > 0 or len(snk) > 64, ["big_container=" + case["container"], "big_pops=" + case["pops"],
+    return Info(tiny > 0 or len(snk) > 64, ["big_container=" + case["container"], "big_pops=" + case["pops"], "big_over_1024_states=%s" % (case["n"] > 1024),
                            "big_sinks=%s" % ("<=3" if len(snk) <= 3 else "64" if len(snk) == 64 else ">64"),
                            "ends_weight=%g" % case.get("ends_weight", 0),
                            "edges_below_1e-8=%s" % ("0" if tiny == 0 else "some" if tiny < 100 else "many")])
